@@ -24,7 +24,7 @@ pub enum Tok {
     /// Stellar asset contract registered as canonical
     Asset,
     /// harness token with given metadata registered as canonical: 0 ok, 1 multi-byte, 2 decimals 255,
-    /// 3 empty name, 4 empty symbol, 5 decimals 256
+    /// 3 empty name, 4 empty symbol, 5 decimals 256, 6..11 unusual but non-empty names (NUL padding, spaces, ...)
     Probe(u8),
     /// ITS-deployed token addressed through the canonical entry point (its address was never registered as canonical)
     ItsDeployedViaCanonical,
@@ -85,7 +85,13 @@ fn its_meta(k: u8) -> (Vec<u8>, Vec<u8>, u32) {
 }
 
 fn probe_meta(k: u8) -> (Vec<u8>, Vec<u8>, u32, bool) {
-    match k % 6 {
+    match k % 12 {
+        6 => (b"Pad\0\0".to_vec(), b"PD\0".to_vec(), 7, true),
+        7 => (b" Spaced ".to_vec(), b" S ".to_vec(), 7, true),
+        8 => (b"\0".to_vec(), b"\0".to_vec(), 7, true),
+        9 => (b"line\nbreak\ttab".to_vec(), b"L\r".to_vec(), 7, true),
+        10 => (vec![b'n'; 200], vec![b's'; 40], 7, true),
+        11 => ("\u{feff}Bom".as_bytes().to_vec(), "\u{ff26}\u{ff37}".as_bytes().to_vec(), 7, true),
         0 => (b"Probe".to_vec(), b"PRB".to_vec(), 7, true),
         1 => ("Prøbe 漢".as_bytes().to_vec(), "¥".as_bytes().to_vec(), 0, true),
         2 => (b"P255".to_vec(), b"P".to_vec(), 255, true),
@@ -99,7 +105,7 @@ fn tok() -> impl Strategy<Value = Tok> {
     prop_oneof![
         5 => (0u8..5).prop_map(Tok::ItsDeployed),
         3 => Just(Tok::Asset),
-        5 => (0u8..6).prop_map(Tok::Probe),
+        7 => (0u8..12).prop_map(Tok::Probe),
         1 => Just(Tok::ItsDeployedViaCanonical),
         1 => Just(Tok::UnregisteredSalt),
         1 => Just(Tok::UnregisteredAsset),
@@ -112,7 +118,7 @@ impl Property for C18 {
         "C18"
     }
     fn rule(&self) -> &'static str {
-        "proptest single cases: token (ITS-deployed with 5 metadata classes incl. multi-byte names, decimals 0/255, 32/33-byte strings; Stellar asset contract registered as canonical; harness token with metadata ok / multi-byte / decimals 255 / empty name / empty symbol / decimals 256 registered as canonical, optionally renamed after an earlier remote deployment under other metadata; ITS-deployed token addressed through the canonical entry point; unregistered salt / asset) x caller (original deployer, another address reusing the salt) x destination (trusted, never trusted, removed again, the hub chain itself, empty, a trusted name in another letter case / with a trailing space) x gas (0, negative, affordable, exact balance, balance+1) x payer authorised or not. Oracle: success iff id registered for the caller's own (deployer,salt) / the canonical address, destination trusted, metadata representable, payer authorised a positive affordable payment; then returned id = independent derivation, exactly one contract_called to the hub whose payload equals the harness's own ABI encoding of SendToHub{destination, Deploy{id,name,symbol,decimals,no minter}}, a gas payment event with the same payload hash, payer and amount, one service event naming the id and the actual metadata, and the only balance change is the gas payment; otherwise failure with the ledger snapshot identical. non-trivial = every case except the suite's fixed happy path; distinct by Debug hash"
+        "proptest single cases: token (ITS-deployed with 5 metadata classes incl. multi-byte names, decimals 0/255, 32/33-byte strings; Stellar asset contract registered as canonical; harness token with metadata ok / multi-byte / decimals 255 / empty name / empty symbol / decimals 256 / names with trailing NULs, surrounding spaces, a single NUL, control characters, 200 bytes, BOM and full-width letters registered as canonical, optionally renamed after an earlier remote deployment under other metadata; ITS-deployed token addressed through the canonical entry point; unregistered salt / asset) x caller (original deployer, another address reusing the salt) x destination (trusted, never trusted, removed again, the hub chain itself, empty, a trusted name in another letter case / with a trailing space) x gas (0, negative, affordable, exact balance, balance+1) x payer authorised or not. Oracle: success iff id registered for the caller's own (deployer,salt) / the canonical address, destination trusted, metadata representable, payer authorised a positive affordable payment; then returned id = independent derivation, exactly one contract_called to the hub whose payload equals the harness's own ABI encoding of SendToHub{destination, Deploy{id,name,symbol,decimals,no minter}}, a gas payment event with the same payload hash, payer and amount, one service event naming the id and the actual metadata, and the only balance change is the gas payment; otherwise failure with the ledger snapshot identical. non-trivial = every case except the suite's fixed happy path; distinct by Debug hash"
     }
     fn cases(&self, tier: Tier) -> u64 {
         tier.pick(15000, 150000)
@@ -131,7 +137,7 @@ impl Property for C18 {
     }
     fn fixed_cases(&self, _tier: Tier) -> Vec<Case> {
         let mut v = vec![];
-        for k in 0..6 {
+        for k in 0..12 {
             v.push(Case { tok: Tok::Probe(k), who: Who::OriginalDeployer, dest: Dest::Trusted, gas: GasC::Affordable(3), authorised: true, renamed_after_earlier_deployment: false });
             v.push(Case { tok: Tok::Probe(k), who: Who::OriginalDeployer, dest: Dest::Trusted, gas: GasC::Affordable(3), authorised: true, renamed_after_earlier_deployment: true });
         }
